@@ -19,6 +19,8 @@ from .pymodel import package
 from .valueflow import (Flow, V, as_map, contains, lower, match, show, simp, subst, walk)
 
 FILE = "naunet/templateloader.py"
+_ANCHORS = ("_assign_rates",)      # methods the rules read as calls (C02.R5 / C03.R4), not as the value they return
+_MUTATORS = ("append", "extend", "add", "update", "insert", "pop", "remove", "clear", "sort", "reverse", "setdefault", "popitem", "discard")
 
 
 @dataclass
@@ -63,7 +65,29 @@ class OdeModel:
         def _resolver(name, _pkg=pkg):
             _, f = _pkg.resolve("TemplateLoader", name)
             return f
-        self.flow = Flow(self.func, FILE, proc_resolver=_resolver)
+        # ... and small loop-free helper FUNCTIONS (`self._without(lst, x)` returning a value) are read as the value they return,
+        # provided they leave their arguments alone (an in-place edit of a list handed in would be lost in the value view)
+        def _pure_resolver(name, _pkg=pkg):
+            _, f = _pkg.resolve("TemplateLoader", name)
+            if f is None or name in _ANCHORS:
+                return None
+            ps = {a.arg for a in f.args.args + f.args.kwonlyargs}
+            for n in ast.walk(f):
+                if isinstance(n, ast.Call) and isinstance(n.func, ast.Attribute) and n.func.attr in _MUTATORS:
+                    b = n.func.value
+                    while isinstance(b, (ast.Attribute, ast.Subscript)):
+                        b = b.value
+                    if isinstance(b, ast.Name) and b.id in ps:
+                        return None
+                if isinstance(n, (ast.Assign, ast.AugAssign, ast.AnnAssign, ast.Delete)):
+                    for t in (n.targets if isinstance(n, (ast.Assign, ast.Delete)) else [n.target]):
+                        b = t
+                        while isinstance(b, (ast.Attribute, ast.Subscript)):
+                            b = b.value
+                        if b is not t and isinstance(b, ast.Name) and b.id in ps:
+                            return None
+            return f
+        self.flow = Flow(self.func, FILE, proc_resolver=_resolver, resolver=_pure_resolver)
         fl = self.flow
         params = [a.arg for a in self.func.args.args if a.arg != "self"]
         if not params:
